@@ -32,7 +32,10 @@
 #define OP_X ((char)88)
 #define OP_OK (OPB == OP_S || OPB == OP_D || OPB == OP_E || OPB == OP_X)
 #define KL ((size_t)U32AT(P0 + 1))
-#define KEY_OK (KL >= 1 && KL <= 65536 && 5 + KL <= TL)
+#define KEY_OK (KL >= 1 && KL <= 65536 && 5 + KL <= TL)      /* the reader's own acceptance domain (documented cap 65536) */
+/* WRITE-SIDE bound, taken from the real validation in set()/setBatch (validateKeyValue: 1 <= key.size() <= MAX_KEY_LENGTH, constant extracted from the header):
+ * every key the store can have written.  The replay bound must not be tighter than this (clauses W1..W4, RT2w). */
+#define KEY_WRITABLE (KL >= 1 && KL <= MAX_KEY_LENGTH && 5 + KL <= TL)
 #define FOFF (5 + KL)                                      /* payload offset of the first field after the key */
 /* S: vlen32 | val | crc */
 #define S_VL ((size_t)U32AT(P0 + FOFF))
@@ -130,6 +133,8 @@ void h_step_apply_sd(void)
 {
   STEP_SETUP(b == 0)
   __CPROVER_assert(IMPL(COMPLETE && crc_match && OPB == OP_S && KEY_OK && S_OK, KV.touched && EX.touched), "S1 a complete, CRC-correct, well-formed S record IS applied (acknowledged writes are recovered)");
+  __CPROVER_assert(IMPL(COMPLETE && crc_match && OPB == OP_S && KEY_WRITABLE && S_OK, KV.touched && EX.touched), "W1 every S record the encoder emits for a key set() accepts (1 <= klen <= MAX_KEY_LENGTH) is ACCEPTED and applied by the replay");
+  __CPROVER_assert(IMPL(COMPLETE && crc_match && OPB == OP_D && KEY_WRITABLE, KV.touched && EX.touched), "W2 every D record for a key set() accepts is ACCEPTED and applied by the replay");
   __CPROVER_assert(IMPL(touched && OPB == OP_S, S_OK), "S2 S applied => vlen32 and value inside the record");
   __CPROVER_assert(IMPL(touched && OPB == OP_S && LK.is_g, KV.has && KV.val.n == S_VL && !EX.has), "S3 S: key present with |val| == vlen32; a plain set clears the expiry");
   __CPROVER_assert(IMPL(touched && OPB == OP_S && LK.is_g && GK < S_VL, KV.val.p[GK] == LOG[P0 + FOFF + 4 + GK]), "S4 S: value bytes == record bytes (arbitrary byte GK)");
@@ -143,6 +148,7 @@ void h_step_apply_e(void)
 {
   STEP_SETUP(b == 0)
   __CPROVER_assert(IMPL(COMPLETE && crc_match && OPB == OP_E && KEY_OK && E_OK && PLAUSIBLE(E_EXP), KV.touched && EX.touched), "E1 a complete, CRC-correct, well-formed E record IS applied");
+  __CPROVER_assert(IMPL(COMPLETE && crc_match && OPB == OP_E && KEY_WRITABLE && E_OK && PLAUSIBLE(E_EXP), KV.touched && EX.touched), "W3 every E record for a key set() accepts is ACCEPTED and applied by the replay");
   __CPROVER_assert(IMPL(touched && OPB == OP_E, E_OK && PLAUSIBLE(E_EXP)), "E2 E applied => fields inside the record, expiry plausible");
   __CPROVER_assert(IMPL(touched && OPB == OP_E, G_fromms_called && G_fromms_arg == E_EXP), "E3a E: the expiry handed to fromEpochMs is the record's exp64 field");
   __CPROVER_assert(IMPL(touched && OPB == OP_E && LK.is_g && G_fromms_ret > now, KV.has && KV.val.n == E_VL && EX.has && EX.val.expiry == G_fromms_ret && EX.val.timerId == 0),
@@ -157,6 +163,7 @@ void h_step_apply_e_bytes(void)
 void h_step_apply_x(void)
 {
   STEP_SETUP(b == 0)
+  __CPROVER_assert(IMPL(COMPLETE && crc_match && OPB == OP_X && KEY_WRITABLE && X_OK && kv_has0 && G_skey_made && G_skey_last.is_g && (E_EXP == IORA_LIMIT_int64_t_min || PLAUSIBLE(E_EXP)), EX.touched), "W4 every X record for a present key set() accepts is ACCEPTED and applied by the replay");
   __CPROVER_assert(IMPL(touched && OPB == OP_X, X_OK), "X1 X applied => exp64 inside the record");
   __CPROVER_assert(IMPL(COMPLETE && crc_match && OPB == OP_X && KEY_OK && !X_OK, !touched), "X2 malformed X => skipped");
   __CPROVER_assert(IMPL(OPB == OP_X && touched && LK.is_g, kv_has0), "X3 X is applied only to a present key");
@@ -218,7 +225,7 @@ void h_open_log(void)
   char op = (char)nondet_u8(); iora_sv key; iora_bv value; int64_t exp = nondet_i64(); uint32_t crc = nondet_u32(); \
   key.n = nondet_size_t(); value.n = nondet_size_t(); GK = nondet_size_t(); \
   __CPROVER_assume(op == OP_S || op == OP_D || op == OP_E || op == OP_X); \
-  __CPROVER_assume(key.n >= 1 && key.n <= 65535 && value.n <= 100 * 1024 * 1024); \
+  __CPROVER_assume(key.n >= 1 && key.n <= MAX_KEY_LENGTH && value.n <= MAX_VALUE_LENGTH);      /* what validateKeyValue admits (extracted constants) */ \
   key.p = (const char *)malloc(key.n); value.p = (const uint8_t *)malloc(value.n); __CPROVER_assume(key.p != NULL && value.p != NULL); \
   size_t LOG_N = ENC_N(op, key, value); \
   uint8_t *LOG = (uint8_t *)malloc(LOG_N); __CPROVER_assume(LOG != NULL); \
@@ -238,6 +245,7 @@ void h_codec_roundtrip(void)
   if (op == OP_E && value.n > 0 && GK < value.n) { IORA_CANARY("h_codec_roundtrip: E record with a value byte"); }
   __CPROVER_assert(COMPLETE && AVAIL == 4 + TL, "RT1 the record is complete and len32 covers exactly payload + trailer");
   __CPROVER_assert(OPB == op && OP_OK && KL == key.n && KEY_OK, "RT2 op and key length decode to the originals and are accepted");
+  __CPROVER_assert(KEY_WRITABLE, "RT2w the decoded key length is inside the write-side bound the W clauses quantify over");
   __CPROVER_assert(STORED == crc, "RT4 the stored trailer is the crc the writer appended");
   __CPROVER_assert(IMPL(op == OP_D, FOFF + 4 == TL), "RT10 D: key then trailer");
 }
